@@ -938,10 +938,72 @@ fn long_crls(ctx: &Ctx, s: &mut Summary) {
     }
 }
 
+/// ROAs and ASPAs with long lists (scrambled order, both families, nested and touching prefixes among them): what was pushed is
+/// what the decoded twin lists, and the object validates under the trust anchor - past 64, 256 and 1000 entries.
+fn long_lists(ctx: &Ctx, s: &mut Summary) {
+    let pki = &ctx.pki;
+    let k0 = pki.key("k0");
+    let c = json!({"times": "utc", "nb": [2024, 1, 1, 0, 0, 0], "na": [2025, 12, 31, 23, 59, 59]});
+    for n in [1usize, 63, 64, 65, 255, 256, 257, 1000] {
+        let r = guarded(|| -> Result<(), String> {
+            let issuer = ctx.issuer_holding(&c, &IpResources::blocks(IpBlocks::all()), &IpResources::blocks(IpBlocks::all()), &AsResources::blocks(AsBlocks::all())).ok_or("harness: no issuer")?;
+            let (validity, now) = times_of(&c);
+            let sob = || SignedObjectBuilder::new(Serial::from(77u64), validity, rsync("rsync://repo.example/m/ta.crl"), rsync("rsync://repo.example/m/ta.cer"), rsync("rsync://repo.example/m/obj"));
+            let mut b = RoaBuilder::new(Asn::from_u32(64496));
+            let mut pushed = Vec::new();
+            for i in 0..n {
+                let k = (i * 7919 + 5) % 65_521;
+                let (addr, len): (IpAddr, u8) = match i % 4 {
+                    0 => (IpAddr::V4(Ipv4Addr::from(0x0A00_0000u32 + ((k as u32) << 8))), 24),
+                    1 => (IpAddr::V4(Ipv4Addr::from(0x0A00_0000u32 + ((k as u32) << 8))), 25),            // nested in the one before or after
+                    2 => (IpAddr::V6(Ipv6Addr::from((0x2001_0db8u128 << 96) | ((k as u128) << 64))), 64),
+                    _ => (IpAddr::V4(Ipv4Addr::from(0xC000_0000u32 + k as u32)), 32),
+                };
+                b.push_addr(addr, len, None);
+                pushed.push((addr, len));
+            }
+            let built = b.finalize(sob(), &pki.signer, &k0).map_err(|x| x.to_string())?;
+            let twin = Roa::decode(built.to_captured().into_bytes(), true).map_err(|x| format!("does not decode: {x}"))?;
+            let mut listed: Vec<(IpAddr, u8)> = twin.content().iter().map(|x| (x.address(), x.address_length())).collect();
+            let mut want = pushed.clone();
+            listed.sort(); want.sort();
+            if listed != want { return Err(format!("the decoded ROA lists {} prefixes, {} were pushed (or other ones)", listed.len(), want.len())); }
+            if twin.content().iter_origins().count() != n { return Err(format!("iter_origins yields {}", twin.content().iter_origins().count())); }
+            rpki::repository::sigobj::SignedObject::decode(built.to_captured().into_bytes(), true).map_err(|x| x.to_string())?
+                .validate_at(&issuer, true, now).map_err(|x| format!("does not validate: {x}"))?;
+            for a in twin.content().iter() {
+                let res = if a.is_v4() { twin.cert().v4_resources() } else { twin.cert().v6_resources() };
+                if !res.to_blocks().map(|bl| bl.contains_block(rpki::repository::resources::IpBlock::from(a.prefix()))).unwrap_or(false) {
+                    return Err(format!("prefix {}/{} is not inside the ROA's own certificate", a.address(), a.address_length()));
+                }
+            }
+            // an ASPA with as many providers
+            let provs: Vec<Asn> = (0..n).map(|i| Asn::from_u32(65_000 + ((i * 7919) % 100_003) as u32)).collect();
+            let mut distinct = provs.clone(); distinct.sort(); distinct.dedup();
+            // (given in scrambled order)
+            let scrambled: Vec<Asn> = distinct.iter().rev().step_by(2).chain(distinct.iter().skip(distinct.len() % 2).step_by(2)).copied().collect();
+            let ab = AspaBuilder::new(Asn::from_u32(64496), scrambled).map_err(|_| "ASPA builder refuses distinct providers".to_string())?;
+            let built = ab.finalize(sob(), &pki.signer, &k0).map_err(|x| x.to_string())?;
+            let twin = rpki::repository::aspa::Aspa::decode(built.to_captured().into_bytes(), true).map_err(|x| format!("ASPA does not decode: {x}"))?;
+            let mut want = provs.clone(); want.sort(); want.dedup();
+            let got: Vec<Asn> = twin.content().provider_as_set().iter().collect();
+            if got != want { return Err(format!("the decoded ASPA lists {} providers, {} distinct ones were given", got.len(), want.len())); }
+            Ok(())
+        });
+        match r {
+            Ok(Ok(())) => {}
+            Ok(Err(m)) => s.violation("long-list", format!("{n} entries: {m}"), json!({"entries": n})),
+            Err(m) => s.violation("long-list:panic", m, json!({"entries": n})),
+        }
+        s.evals(1);
+    }
+}
+
 pub fn replay(args: &[String]) {
     let cases = read_cases(&args[0]);
     let mut s = Summary::new();
     let mut ctx = Ctx::new();
+    if cases.iter().any(|c| c["kind"] == "roa") { long_lists(&ctx, &mut s); }
     if cases.iter().any(|c| c["kind"] == "crl") { long_crls(&ctx, &mut s); }
     for c in &cases {
         let op = c["op"].as_str().unwrap_or("build");
